@@ -33,7 +33,7 @@
 
    No-overflow premises are explicit bounds (2^999 / 2^1000 on the total of the absolute values); the length
    premise n <= 2^50 only serves to keep the second-order term small (n u <= 1/8). *)
-From Coq Require Import Bool NArith ZArith Reals List Lia Lra.
+From Coq Require Import Bool NArith ZArith QArith Qcanon Qcabs Reals List Lia Lra.
 From Flocq Require Import Core.Core IEEE754.BinarySingleNaN IEEE754.Binary IEEE754.Bits.
 From SK Require Import Base.Prelude Base.F64 Base.F64Proofs Stat.Summary Mapping.Glue Stat.KahanProofs.
 Import ListNotations.
@@ -364,3 +364,13 @@ Proof.
   - vm_compute. discriminate.
   - split; [exact H1|exact H2].
 Qed.
+
+(* how tight: two additions whose reported sum is off by more than 3.99 u * sum|v w| (exact rational arithmetic
+   on the denoted values; a search over short inputs converges to 4 from below, so no constant below 4 can be
+   proved; the proved constant is 8, the test oracle uses 5) *)
+Example E_ratio_almost_4 :
+  let l := [(fb 0x3CEDF87FFFFFF011, fb 0x3FE003FFFFFFFF77); (fb 0x3FE0000000000002, fb 0x3FFFFFFFFFFFFFFD)] in
+  let exact := fold_right Qcplus w0 (map (fun vw => f2q (fst vw) * f2q (snd vw))%Qc l) in
+  let mass := fold_right Qcplus w0 (map (fun vw => Qcabs (f2q (fst vw) * f2q (snd vw)))%Qc l) in
+  wltb (Q2Qc (399 # 100) * mass)%Qc (Qcabs (f2q (su_get_sum (add_list su_new l)) - exact) * Q2Qc (2 ^ 53 # 1))%Qc = true.
+Proof. vm_compute. reflexivity. Qed.
